@@ -314,7 +314,7 @@ def check_public_writes(run):
                 elif nm == "write" and f["sig"] and f["sig"][0] in SIGNED:
                     param = f["params"][0]["n"]
                     isneg = any(cj == ("cmp", "<", "p:%s" % param, "0") for cj in conjuncts(g))
-                    isnonneg = any(cj == ("cmp", ">=", "p:%s" % param, "0") for cj in conjuncts(g))
+                    isnonneg = any(cj in (("cmp", "<=", "0", "p:%s" % param), ("cmp", ">=", "p:%s" % param, "0")) for cj in conjuncts(g))
                     is_not = isinstance(a0, dict) and a0.get("k") == "Un" and a0.get("op") == "~"
                     if isneg:
                         want = "NEGATIVE"
